@@ -106,6 +106,14 @@ func runConfine(o *Options, sp *Specs, ev *Evidence) (int, *Evidence) {
 					_ = g
 					return false // the spawned function runs in another goroutine
 				}
+				// a function or method of the package that is mentioned without being called
+				// (method value, function value handed to a helper) may be called by whoever
+				// receives it: it counts as a callee of the function that mentions it
+				if id, ok := n.(*ast.Ident); ok && (before == token.NoPos || id.Pos() < before) {
+					if fn, ok := pkg.TypesInfo.Uses[id].(*types.Func); ok && fn.Pkg() == pkg.Types {
+						out = append(out, funcKeyOf(fn))
+					}
+				}
 				if call, ok := n.(*ast.CallExpr); ok && (before == token.NoPos || call.Pos() < before) {
 					var o types.Object
 					switch f := ast.Unparen(call.Fun).(type) {
